@@ -30,6 +30,8 @@ type netEnv struct {
 	wg       sync.WaitGroup
 	closed   atomic.Bool
 
+	lastFrom atomic.Pointer[netip.AddrPort] // source of the last datagram the UDP echo received
+
 	tcpAccepted atomic.Int64
 	udpReceived atomic.Int64
 	dnsQueries  atomic.Int64
@@ -125,6 +127,7 @@ func (e *netEnv) serveEchoUDP() {
 			return
 		}
 		e.udpReceived.Add(1)
+		e.lastFrom.Store(&from)
 		// first a reply from a source that is not the target address, then the real echo
 		nt := append([]byte(ntMarker), b[:n]...)
 		e.echoUDP2.WriteToUDPAddrPort(nt, from)
